@@ -585,6 +585,16 @@ func init() {
 		return e.tb.Ite(a[0].(*Term), a[1].(*Term), a[2].(*Term))
 	})
 	vp("SymbolicAddrs", func(e *Exec, _ *frame, a []Value) Value { e.symAddrs = e.concBool(a[0]); return nil })
+	vp("AssertNoGlobalWrites", func(e *Exec, _ *frame, a []Value) Value {
+		id := e.argStr(a[0])
+		msg := ""
+		if len(e.globalWriteSeen) > 0 {
+			msg = "race: package-level state written: " + strings.Join(e.globalWriteSeen, "; ")
+		}
+		e.doAssert(id, e.tb.Bool(len(e.globalWriteSeen) == 0), false, msg)
+		e.globalWriteSeen = nil
+		return nil
+	})
 	vp("Symbolic", func(e *Exec, _ *frame, a []Value) Value { return e.tb.Bool(true) })
 	vp("Note", func(e *Exec, _ *frame, a []Value) Value { e.notes = append(e.notes, e.argStr(a[0])); return nil })
 
@@ -788,6 +798,8 @@ func init() {
 		}
 		panic("go/types.Checker has no field isPanic")
 	})
+	// expression rendering for diagnostics only: the text is never the subject of a check
+	reg("go/types.ExprString", func(e *Exec, _ *frame, a []Value) Value { return "<expr>" })
 	reg("runtime.Caller", func(e *Exec, _ *frame, a []Value) Value {
 		return Tuple{e.tb.BV(64, 0), "?", e.tb.BV(64, 0), e.tb.Bool(false)}
 	})
